@@ -97,7 +97,7 @@ def extract_boundary_of_surface(mesh : SurfaceMesh) -> PolyLine :
     # re order edge indexes
     for e,(A,B) in enumerate(bound.edges):
         bound.edges[e] = keyify(map_v2v[A], map_v2v[B])
-    return bound, map_v2v
+    return bound, dict((ind,v) for (v,ind) in map_v2v.items()) # boundary vertex id -> vertex id in the original mesh
 
 @allowed_mesh_types(VolumeMesh)
 def extract_boundary_of_volume(mesh : VolumeMesh) -> SurfaceMesh :
